@@ -306,8 +306,49 @@ fn proof_case(rec: &mut Rec, _ctx: &Ctx, idx: u64, rng: &mut ChaCha20Rng) {
   }
 }
 
+/// JSON evaluations whose base64 `output` field is varied: accepted iff the
+/// string is canonical standard base64 of exactly 32 bytes, and then the point is
+/// exactly those bytes (never a zero-filled or truncated value)
+fn json_case(rec: &mut Rec, _ctx: &Ctx, idx: u64, rng: &mut ChaCha20Rng) {
+  use base64::{engine::Engine as _, prelude::BASE64_STANDARD};
+  for (desc, s) in crate::hostile::b64_output_strings(rng) {
+    let js = format!("{{\"output\":{},\"proof\":null}}", serde_json::to_string(&s).unwrap_or_default());
+    rec.evals += 1;
+    rec.ev("json_malformed_inputs");
+    rec.case(&("json", s.clone()));
+    let model: Option<Vec<u8>> = BASE64_STANDARD.decode(&s).ok().filter(|v| v.len() == 32);
+    let real = quiet(rec, || serde_json::from_str::<Evaluation>(&js).ok().map(|e| e.output.as_bytes().to_vec()));
+    let kind = desc.split(':').nth(1).unwrap_or("").split(|c: char| c.is_ascii_digit()).next().unwrap_or("").to_string();
+    match (real, model) {
+      (Some(None), None) => rec.ev("json_both_reject"),
+      (Some(Some(r)), Some(m)) if r == m => rec.ev("json_both_accept"),
+      (Some(Some(r)), m) => rec.violation(
+        &format!("json-partial-value:{}", if m.is_some() { "differs" } else { "malformed-accepted" }),
+        format!("an Evaluation whose output field is {:?} ({}) was accepted as the point {}; the field {}", s, desc, hex(&r), if m.is_some() { "denotes other bytes" } else { "does not decode to 32 bytes" }),
+        json!({"json": js, "kind": kind}),
+      ),
+      (Some(None), Some(_)) => rec.violation("json-valid-rejected", format!("a well-formed evaluation was rejected ({})", desc), json!({"json": js})),
+      (None, _) => {}
+    }
+  }
+  // a present but malformed proof never yields an evaluation with a proof
+  for (desc, js) in [
+    ("proof-short-c", "{\"output\":\"AAAAAAAAAAAAAAAAAAAAAAAAAAAAAAAAAAAAAAAAAAA=\",\"proof\":{\"c\":[1,2,3],\"s\":[0,0,0,0,0,0,0,0,0,0,0,0,0,0,0,0,0,0,0,0,0,0,0,0,0,0,0,0,0,0,0,0]}}".to_string()),
+    ("proof-noncanonical-s", format!("{{\"output\":\"AAAAAAAAAAAAAAAAAAAAAAAAAAAAAAAAAAAAAAAAAAA=\",\"proof\":{{\"c\":[{}],\"s\":[{}]}}}}", vec!["0"; 32].join(","), vec!["255"; 32].join(","))),
+    ("proof-missing-s", "{\"output\":\"AAAAAAAAAAAAAAAAAAAAAAAAAAAAAAAAAAAAAAAAAAA=\",\"proof\":{\"c\":[0,0,0,0,0,0,0,0,0,0,0,0,0,0,0,0,0,0,0,0,0,0,0,0,0,0,0,0,0,0,0,0]}}".to_string()),
+  ] {
+    rec.evals += 1;
+    rec.ev("json_malformed_inputs");
+    rec.case(&("json-proof", desc, idx));
+    if let Some(Ok(_)) = quiet(rec, || serde_json::from_str::<Evaluation>(&js).map(|_| ())) {
+      rec.violation("json-malformed-proof-accepted", format!("an Evaluation with a malformed proof was accepted ({})", desc), json!({"json": js}));
+    }
+  }
+}
+
 pub fn run(ctx: &Ctx) -> Rec {
   let mut rec = par_run(ctx, "pk", ctx.n(96, 20560), |rec, i, rng| pk_case(rec, ctx, i, rng));
   rec.merge(par_run(ctx, "proof", ctx.n(200, 400_000), |rec, i, rng| proof_case(rec, ctx, i, rng)));
+  rec.merge(par_run(ctx, "json", ctx.n(64, 20_000), |rec, i, rng| json_case(rec, ctx, i, rng)));
   rec
 }
